@@ -32,11 +32,19 @@ Definition is_none {T} (o : option T) : bool := match o with None => true | Some
 Section WithArith.
   Variable A : arith.
 
+  (* AffiliatePortfolioSecurityStatuses::all_affiliates_share_balance_after:
+     the all-affiliate balance that goes with a new balance of one affiliate -
+     the others' shares plus the new balance, unchanged when the affiliate's
+     balance is.  The ONE expression used by the Buy, Sell and Split arms of
+     delta_for_tx and by the assertion of set_latest_post_status. *)
+  Definition all_after (all old new : Qc) : res Qc :=
+    if Qceqb new old then Ok all
+    else oth <- a_sub A all old ;; a_add A oth new.
+
   (* set_latest_post_status, with its two assert_eq! *)
   Definition set_latest (st : pstate) (af : aff) (v : status) : res pstate :=
     let last_sh := match latest_for st af with Some s => s_sh s | None => 0 end in
-    t <- a_add A (s_sh v) (ps_all st) ;;
-    expected <- a_sub A t last_sh ;;
+    expected <- all_after (ps_all st) last_sh (s_sh v) ;;
     if negb (Bool.eqb (af_reg af) (is_none (s_acb v))) then Panic (PanicAssert Site.set_latest_acb)
     else if negb (Qceqb (s_all v) expected) then Panic (PanicAssert Site.set_latest_all)
     else Ok {| ps_map := aupdate (af_id af) v (ps_map st);
@@ -83,7 +91,7 @@ Section WithArith.
   Definition sell_core (pre : status) (sh aps com rate crate : Qc) : res sellcore :=
     nsh <- a_sub A (s_sh pre) sh ;;
     if Qcltb nsh 0 then Rej RejOversale else
-    nall <- a_sub A (s_all pre) sh ;;
+    nall <- all_after (s_all pre) (s_sh pre) nsh ;;
     if Qcltb nall 0 then Rej RejOversaleAll else
     maps <- per_share_acb pre ;;
     match maps with
@@ -109,7 +117,8 @@ Section WithArith.
     match t_act t with
     | Buy sh aps com rate crate =>
         nsh <- gez_add A (s_sh pre) sh ;;
-        nall <- gez_add A (s_all pre) sh ;;
+        r <- all_after (s_all pre) (s_sh pre) nsh ;;
+        nall <- gez_unwrap Site.buy_all r ;;
         match s_acb pre with
         | Some old =>
             v <- local_value sh aps rate ;;
@@ -148,8 +157,7 @@ Section WithArith.
         m <- a_mul A (s_sh pre) post ;;
         qd <- a_div A m pre_ ;;
         nsh <- gez_unwrap Site.split_balance qd ;;
-        diff <- a_sub A nsh (s_sh pre) ;;
-        nall <- a_add A (s_all pre) diff ;;
+        nall <- all_after (s_all pre) (s_sh pre) nsh ;;
         if Qcltb nall 0 then Rej RejSplitAllNegative else
         if Qcltb post pre_ && int_only && negb (Qc_is_integer nsh) then Rej RejRevSplitFraction
         else Ok (mk_delta t pre nsh nall (s_acb pre) None None)
